@@ -57,6 +57,7 @@ def main(argv: list[str]) -> int:
     seed = core.verif_seed()
     started = time.time()
     ctx = core.Ctx(mod.PID, tier, seed, mod.evaluate)
+    ctx.subkey = getattr(mod, "failure_subkey", None)
     # Saved regression inputs are replayed first.
     cdir = core.CORPUS_DIR / pid
     if cdir.is_dir():
